@@ -38,6 +38,19 @@ def main():
         print(json.dumps({k: d[k] for k in d if k in ("broken_obligation", "broken_correspondence")}, indent=1)[:3000])
         sys.exit(2)
     fails = None
+    if d.get("script") and str(d.get("signature", "")).startswith("audit/"):
+        # a probe of the independent audits: the script is the replay (exit 1 = the violation occurs)
+        import os, subprocess
+        root = os.path.dirname(os.path.dirname(os.path.abspath(__file__)))
+        repo = os.environ.get("VERIF_REPO", "/repo")
+        r = subprocess.run(["/venv/bin/python", "-W", "ignore", os.path.join(root, d["script"]), repo],
+                           env=dict(os.environ, PYTHONPATH=repo, PYTHONHASHSEED="0"), capture_output=True, text=True, timeout=300)
+        print(r.stdout[-1500:])
+        if r.returncode == 1:
+            print("STILL FAILS:", d.get("what") or d["signature"]); sys.exit(1)
+        if r.returncode == 0:
+            print("the recorded input passes on the current tree"); sys.exit(0)
+        print(f"the probe script itself failed (exit {r.returncode}): {r.stderr[-400:]}"); sys.exit(1)
     try:
         if prop == "C01" and "rows" in d:
             import c01
